@@ -67,7 +67,24 @@ NA = {
 }
 PENDING = {}
 
+GLUE = {
+ "C01": " Glue on the MIR: one iteration of the sample loop updates counts/totals at sample_map.get_population_id(<the record's sample>) and nowhere else; read_site resets first, asks the genotype reader once per call and passes its Error/Done on; the VCF/BCF readers answer every record with that record's decoded GT vector.",
+ "C02": " Glue on the MIR: Projected = projection.project_unchecked(&totals, &counts); Builder::build's validation chain; the pmf / binomial / ln_factorial structure over uninterpreted ln, exp, floor, ln_gamma; PartialProjection keeps nothing between sites.",
+ "C03": " Glue on the MIR: Spectrum::project wiring and the pmf / binomial / ln_factorial structure over uninterpreted ln, exp, floor, ln_gamma.",
+ "C05": " Glue on the MIR: the per-cell closure of Folded::from_spectrum decides from the index sum in the spectrum's own shape and keeps nothing between calls.",
+ "C06": " Glue on the MIR: harmonic / p_harmonic are the sums of the first n-1 terms; binomial's structure; f2/f3/f4/Fst/pi_xy kernels for all sizes.",
+ "C07": " Glue on the MIR: the read builder hands exactly the bytes read to the detected format's reader; the write builder hands the caller's writer itself to one format writer with its own precision.",
+ "C08": " Glue on the MIR: both genotype readers convert exactly the record's decoded GT vector with this conversion; read_site passes a reader error on.",
+ "C11": " Glue on the MIR: PartialProjection and site::Reader carry no state besides their per-record scratch, read_site consumes exactly one record per call (history independence, with native replays).",
+ "C13": " If View::run has a form the model does not recognise, the statement is run against the built binary (all option subsets on eleven shapes) and only a failing run is a violation.",
+ "C18": " Glue on the MIR: write::Builder hands the caller's writer itself (no intermediate buffer) to the format writer; a deviation is replayed with a sink failing at every offset.",
+}
+
+
 def main():
+    import json as _json
+    props = _json.load(open(os.path.join(VERIF, "lib", "props.json")))
+    m_serves = sorted(p for p in CLAIMS if props.get(p, {}).get("mtasks"))
     m = {
      "version": 1,
      "setup_cmd": "./setup.sh",
@@ -80,7 +97,7 @@ def main():
      },
      "engines": [
        {"name": "K", "path": "lib/kv.py", "serves_properties": sorted(CLAIMS), "kind_free_text": "Kani 0.68 / CBMC 6.11 / CaDiCaL bounded model checking of the compiled crates; harnesses in harness/, injected into a scratch copy"},
-       {"name": "M", "path": "lib/mtasks.py", "serves_properties": ["C01", "C02", "C05", "C06", "C10", "C11", "C13", "C14", "C15", "C16", "C17"], "kind_free_text": "mir2smt: nightly MIR dump -> SMT-LIB (z3, cvc5 cross-check): numeric identities / overflow VCs and glue path terms"},
+       {"name": "M", "path": "lib/mtasks.py", "serves_properties": m_serves, "kind_free_text": "mir2smt: nightly MIR dump -> SMT-LIB (z3, cvc5 cross-check): numeric identities / overflow VCs and glue path terms; eleven obligations replay a deviation natively against the real code before reporting it"},
      ],
      "checks": [],
      "not_applicable": [],
@@ -95,7 +112,7 @@ def main():
           "evidence_file": f"evidence/{pid}.json",
           "replay_cmd_template": "./check --replay {path}",
           "engine": "K+M",
-          "level_claimed": {"category": "model_checking", "text": text, "design_ref": f"DESIGN.md section 4, {pid}"},
+          "level_claimed": {"category": "model_checking", "text": text + GLUE.get(pid, ""), "design_ref": f"DESIGN.md section 4, {pid}"},
           "level_note": note,
           "technique": tech})
     for pid, reason in list(NA.items()) + [(p, r) for p, r in PENDING.items() if p not in CLAIMS]:
